@@ -211,7 +211,11 @@ def nested_part(ctx, dist, nontrivial, batch, N, cases_dbg, i0):
         ren = c05.rename_wrapper_inputs(rng, g) if rng.random() < 0.5 else {}
         g["bound"] = {ren.get(k, k): v for k, v in g.get("bound", {}).items()}
         outs = [o for nn in g["nodes"] for o in gen.iface(nn)[1]]
-        if outs and rng.random() < 0.5:
+        has_sib = any(nn["name"] == "sib" for nn in g["nodes"])
+        if has_sib and rng.random() < 0.5:
+            # only the sibling is in scope: the nested graph that binds the shared name is not, so nothing supplies it any more
+            g["selected"] = ["sib_out"]
+        elif outs and rng.random() < 0.5:
             g["selected"] = rng.sample(outs, rng.randint(1, min(2, len(outs))))
         try:
             G = engine.real_input_spec(g)
